@@ -978,6 +978,14 @@ func (e *SpecEnv) call(x *ECall) TV {
 		tn := exprText(x.Args[1])
 		ty, _ := e.resolveType(tn)
 		return specTV(fmt.Sprintf("(= (i.tag %s) %s)", v.T, c.tagOf(ty)), "Bool")
+	case "as":
+		// as(x, T): x viewed as a value of Go type T (no conversion)
+		v := e.eval(x.Args[0])
+		ty, srt := e.resolveType(exprText(x.Args[1]))
+		if v.Loc != nil && v.T == "" {
+			v = e.locTerm(v)
+		}
+		return TV{T: v.T, Ty: ty, Sort: srt}
 	case "asPtr":
 		// asPtr(x, T): payload of interface x as pointer of type T (T given as *Named)
 		v := e.eval(x.Args[0])
